@@ -4,12 +4,14 @@ mod smoke;
 mod light;
 mod rooms;
 mod c01;
+mod c10;
 
 fn main() {
     let args = common::parse_args();
     let code = match args.prop.as_str() {
         "smoke" => smoke::run(&args),
         "C01" => c01::run(&args),
+        "C10" => c10::run(&args),
         other => {
             eprintln!("unknown property {}", other);
             2
